@@ -42,3 +42,38 @@ package staged
 //@   ensures [wf] wfCalc(result) && fresh(result) && result.current == -1 && len(result.stages) == len(stages)
 //@   ensures [same] forall j int :: 0 <= j && j < len(stages) ==> result.stages[j].EndTarget == stages[j].EndTarget && result.stages[j].Duration == stages[j].Duration
 //@   ensures [start] result.start == (start == nil ? timeZero() : old(deref(start)))
+//@
+//@ // ---- C10: Rate is the piecewise-linear interpolation. Ghost: G10cum = prefix sums of the stage durations
+//@ // (G10cum[0] = 0, G10cum[j+1] = G10cum[j] + duration j; monotone because durations are non-negative),
+//@ // G10T0 = the instant the profile started.
+//@ ghost var G10cum map[int]int
+//@ ghost var G10T0 int
+//@ ghost var G10off int
+//@ pred cumOK(s *RateCalculator) = G10cum[0] == 0 &&
+//@     (forall j int :: 0 <= j && j < len(s.stages) ==> G10cum[j + 1] == G10cum[j] + s.stages[j].Duration && s.stages[j].Duration >= 0 && s.stages[j].Duration <= 4503599627370496) &&
+//@     (forall a int, b int :: 0 <= a && a <= b && b <= len(s.stages) ==> G10cum[a] <= G10cum[b])
+//@ pred smallTargets(s *RateCalculator) = forall j int :: 0 <= j && j < len(s.stages) ==> -2147483648 <= s.stages[j].EndTarget && s.stages[j].EndTarget <= 2147483648 &&
+//@     -2147483648 <= s.stages[j].StartTarget && s.stages[j].StartTarget <= 2147483648
+//@
+//@ func (*RateCalculator).MaxDuration
+//@   props C10
+//@   requires cumOK(s)
+//@   modifies nothing
+//@   loop 0 invariant -1 <= rangeindex && rangeindex < len(s.stages) && maxDuration == G10cum[rangeindex + 1]
+//@   ensures [sum] result == G10cum[len(s.stages)]
+//@
+//@ func (*RateCalculator).Rate
+//@   props C10 C14
+//@   fp-monotone
+//@   requires wfCalc(s) && cumOK(s) && smallTargets(s)
+//@   requires s.current >= 0 ==> (s.start == G10T0 + G10cum[s.current] && now >= s.start)
+//@   requires (s.current < 0 && s.start != timeZero()) ==> now >= s.start
+//@   requires now - (s.current < 0 && s.start == timeZero() ? now : (s.current < 0 ? s.start : G10T0)) <= 4503599627370496
+//@   ghost at entry : G10T0 = (s.current >= 0 ? G10T0 : (s.start == timeZero() ? now : s.start))
+//@   modifies s.current, s.start, G10T0, G10off
+//@   loop 0 invariant 0 <= s.current && s.current <= len(s.stages) && s.start == G10T0 + G10cum[s.current] && now >= s.start
+//@   ghost at exit : G10off = now - s.start
+//@   ensures [cursor] 0 <= s.current && s.current <= len(s.stages) && s.start == G10T0 + G10cum[s.current] && now >= s.start && wfCalc(s)
+//@   ensures [elapsed] now - G10T0 >= G10cum[len(s.stages)] ==> result == 0
+//@   ensures [in-stage] now - G10T0 < G10cum[len(s.stages)] ==> s.current < len(s.stages) && G10cum[s.current] <= now - G10T0 && now - G10T0 < G10cum[s.current + 1]
+//@   ensures [between-targets] s.current < len(s.stages) ==> min(s.stages[s.current].StartTarget, s.stages[s.current].EndTarget) <= result && result <= max(s.stages[s.current].StartTarget, s.stages[s.current].EndTarget)
